@@ -9,6 +9,7 @@ for line in open(os.path.join(HERE, 'seeded', 'RESULTS.tsv')):
     p = line.rstrip('\n').split('\t')
     if len(p) >= 3:
         res[p[0]].append((p[1], p[2], p[3] if len(p) > 3 else ''))
+notes = json.load(open(os.path.join(HERE, 'seeded', 'NOTES.json')))
 print("| seed | change (sub-agent's summary) | needs | caught by |")
 print("|------|------------------------------|-------|-----------|")
 def short(t, n):
@@ -24,7 +25,9 @@ for name in sorted(os.listdir(os.path.join(HERE, 'seeded'))):
     meta = json.load(open(os.path.join(d, 'meta.json')))
     caught = [c for c, rc, _ in res.get(name, []) if rc == 'rc=1']
     other = [f"{c}:{rc}" for c, rc, _ in res.get(name, []) if rc != 'rc=1']
-    if caught:
+    if name in notes:
+        cb = notes[name]
+    elif caught:
         cb = ', '.join(caught)
     elif any('does-not-apply' in rc for _, rc, _ in res.get(name, [])) or \
             any(c == '-' for c, _, _ in res.get(name, [])):
